@@ -55,6 +55,9 @@ var zzC01Sinks = []string{
 	/* 26 */ `<ul><li v-for="it in items" v-text="it" v-show="no"></li></ul><q v-if="ok" v-text="val" v-show="no"></q>`,
 	/* 27 */ `<p v-text="val | escape"></p><p v-text="named | escape"></p><p v-text="named"></p><p>{{ named }}</p>`,
 	/* 28 */ `<p v-text="items | escape"></p><p v-text="items"></p><p :title="items">{{ items }}</p><p v-text="boxed | escape"></p>`,
+	// bound attributes whose expression is written with a mustache
+	/* 29 */ `<a :title="{{ val }}">t</a><p :data-x="{{ val }}" :class="{{ val }}">c</p>`,
+	/* 30 */ `<div><template include="c.vuego" :p="{{ val }}" q="x"></template></div><ul><li v-for="it in items" :title="{{ it }}">i</li></ul>`,
 }
 
 func zzC01FS() *zzFS {
@@ -100,8 +103,9 @@ func VerifC01_SinkShape() {
 func VerifC01_Mustache() {
 	k := zzChoice("sink", len(zzC01Sinks))
 	n := zzBound("N", 5, 7)
-	val := zzStringIn("val", n, "{}k ")
-	zzAssume(zzContains(val, "{{"))
+	// "{{ k }}" and the object-literal shape "{k:k}" both name the scope variable k
+	val := zzStringIn("val", n, "{}k: ")
+	zzAssume(zzContains(val, "{") && zzContains(val, "k"))
 	out, err := zzC01Render(zzEntry(), k, val)
 	zzNote("template", zzC01Sinks[k])
 	zzNote("out", out)
@@ -196,6 +200,7 @@ var zzC01Uses = []string{
 	`:class="val"`,
 	`class="c {{ val }}"`,
 	`:data-v="val"`,
+	`:title="{{ val }}"`,
 }
 
 var zzC01Companions = []string{
@@ -247,7 +252,7 @@ func VerifC01_Pairs() {
 	}
 	base, err0 := render("word")
 	zzAssert(err0 == nil, "C01.pairs.baseline-renders")
-	mode := zzChoice("mode", 2)
+	mode := zzChoice("mode", 3)
 	zzNote("template", tpl)
 	if mode == 0 {
 		val := zzStringIn("val", zzBound("NP", 3, 4), zzC01Hostile)
@@ -261,7 +266,11 @@ func VerifC01_Pairs() {
 		zzAssert(zzTagQuotes(out) == zzTagQuotes(base), "C01.pairs.quotes")
 		return
 	}
-	out, err := render("a {{ k }} b")
+	hostile := "a {{ k }} b"
+	if mode == 2 {
+		hostile = "{k: k}"
+	}
+	out, err := render(hostile)
 	zzNote("out", out)
 	zzAssert(err == nil, "C01.pairs.render-error")
 	zzAssert(!zzContains(out, "QQQ"), "C01.pairs.mustache-evaluated")
